@@ -280,6 +280,29 @@ pub fn cc_window(
         .map(|window| window.verif_dump())
 }
 
+/// Sampling windows of every member the failure detector knows.
+pub fn cc_windows(chitchat: &Chitchat) -> BTreeMap<ChitchatId, (Vec<f64>, f64, Option<Instant>)> {
+    chitchat
+        .failure_detector
+        .verif_window_ids()
+        .into_iter()
+        .filter_map(|chitchat_id| {
+            let window = cc_window(chitchat, &chitchat_id)?;
+            Some((chitchat_id, window))
+        })
+        .collect()
+}
+
+/// Remembered heartbeats of garbage collected members, most recently used first.
+pub fn cc_gc_memory(chitchat: &Chitchat) -> Vec<(ChitchatId, u64)> {
+    chitchat
+        .cluster_state
+        .verif_gc_memory()
+        .into_iter()
+        .map(|(chitchat_id, heartbeat)| (chitchat_id, heartbeat.0))
+        .collect()
+}
+
 // ---------------------------------------------------------------------------------------------
 // Failure detector, stand-alone
 
